@@ -452,6 +452,31 @@ class Analyzer:
                 eff.merge(self.effects(cname, owner.name, fdef,
                                        self.call_env(fdef, node, env, skip_self=True)))
                 return
+        # getattr(Base, f"{x}_suffix")(self, ...): dynamic dispatch over the methods of Base whose
+        # name matches the constant parts of the f-string; all of them may be called
+        if isinstance(f, ast.Call) and isinstance(f.func, ast.Name) and f.func.id == "getattr" \
+                and len(f.args) >= 2 and isinstance(f.args[0], ast.Name) \
+                and f.args[0].id in self.classes and isinstance(f.args[1], ast.JoinedStr) \
+                and node.args and isinstance(node.args[0], ast.Name) \
+                and node.args[0].id == selfname:
+            import re as _re
+            pat = "".join(_re.escape(str(v.value)) if isinstance(v, ast.Constant) else ".*"
+                          for v in f.args[1].values)
+            base = f.args[0].id
+            seen = set()
+            for c in self.mro(base):
+                ci = self.classes.get(c)
+                if ci is None:
+                    continue
+                for nm, fdef in ci.funcs.items():
+                    if nm in seen or not _re.fullmatch(pat, nm):
+                        continue
+                    seen.add(nm)
+                    if nm in ci.cached:
+                        eff.calls.add(nm)
+                    eff.merge(self.effects(cname, ci.name, fdef,
+                                           self.call_env(fdef, node, env, skip_self=True)))
+            return
         # super().m(...)
         if isinstance(f, ast.Attribute) and isinstance(f.value, ast.Call) \
                 and ast.unparse(f.value.func) == "super":
